@@ -137,6 +137,13 @@ fn handle_inner(req: &Value) -> Value {
                                     return json!({"write_err": format!("require.metadata: {e}")});
                                 }
                             }
+                            // ... and one the serializer refuses leaves the Require as it was (the caller carries on with it)
+                            #[derive(serde::Serialize)]
+                            struct Refused { a: Vec<Option<i64>> }
+                            let refused = if c[1].as_str().unwrap().len() % 2 == 0 { r.metadata(Refused { a: vec![Some(1), None] }).is_err() } else { r.metadata("not a table").is_err() };
+                            if !refused {
+                                return json!({"write_err": "require.metadata: a value that is no TOML table was accepted"});
+                            }
                             b.requires(r)
                         } else if c.len() > 3 {
                             b.requires(Require::new(c[1].as_str().unwrap()))
